@@ -50,7 +50,25 @@ def colls(I):
         ps = I.halloc(st, VecVal([Enum('ValType', ['I32', 'I64', 'F32', 'F64', 'V128'][j % 5])] * (1 + j // 5)))
         rs = I.halloc(st, VecVal([]))
         I.run(fn, [cref, ps, rs], st, cont)
+    def add_func(I, st, cref, k, cont):
+        fn = I.method('add_import', 'ModuleFunctions')
+        I.run(fn, [cref, bv(200 + k, 'Id<Type>'), bv(300 + k, 'Id<Import>')], st, cont)
+
+    def add_elem(I, st, cref, k, cont):
+        fn = I.method('add', 'ModuleElements')
+        kind = Enum('ElementKind', 'Active', (bv(400 + k, 'Id<Table>'), Enum('ConstExpr', 'Value', (Enum('Value', 'I32', (sym('eo%d' % k, 'i32'),)),))), ('table', 'offset'))
+        items = Enum('ElementItems', 'Functions', (I.halloc(st, VecVal([])),))
+        I.run(fn, [cref, kind, items], st, cont)
+
+    def pay_func(rec):
+        k = rec.get('kind')
+        return 'ty%d' % (conc(k.f[0].get('ty')) - 200)
+
+    def pay_elem(rec):
+        return 'tab%d' % (conc(rec.get('kind').f[0]) - 400)
     return [
+        Coll('ModuleFunctions', 'ModuleFunctions', add_func, pay_func),
+        Coll('ModuleElements', 'ModuleElements', add_elem, pay_elem),
         Coll('ModuleMemories', 'ModuleMemories', add_mem, lambda rec: repr(rec.get('initial'))),
         Coll('ModuleGlobals', 'ModuleGlobals', add_glob, lambda rec: repr(rec.get('mutable'))),
         Coll('ModuleTables', 'ModuleTables', add_table, lambda rec: repr(rec.get('initial'))),
@@ -69,6 +87,10 @@ def expected_payload(c, k, same_as=None):
         return 'bytes:pay%d' % k
     if c.name == 'ModuleExports':
         return 'str:"name%d"' % k
+    if c.name == 'ModuleFunctions':
+        return 'ty%d' % k
+    if c.name == 'ModuleElements':
+        return 'tab%d' % k
     j = k if same_as is None else same_as
     return repr([['I32', 'I64', 'F32', 'F64', 'V128'][j % 5]] * (1 + j // 5))
 
@@ -226,14 +248,15 @@ def run_history(I, ctx, c, hist):
     return problems
 
 
-def run_coll(ctx, report, c, maxlen):
-    ob = common.Obligation('O17:' + c.name, '%s: for every history of length <= %d over add/delete/get/iter (ids over all issued identifiers and a never-issued one): fresh ids are never reused, get returns the item the id was created for, deleted or foreign ids are reported absent (panic), iteration yields exactly the live items in creation order%s' % (
+def run_coll(ctx, report, cname, maxlen, shard=0, nshards=1):
+    c = [x for x in colls(ctx.interp()) if x.name == cname][0]
+    ob = common.Obligation('O17:' + c.name + ('' if nshards == 1 else '[shard %d/%d]' % (shard + 1, nshards)), '%s: for every history of length <= %d over add/delete/get/iter (ids over all issued identifiers and a never-issued one): fresh ids are never reused, get returns the item the id was created for, deleted or foreign ids are reported absent (panic), iteration yields exactly the live items in creation order%s' % (
         c.name, maxlen, '; adding an equal signature returns the existing live id, re-adding after delete gives a fresh one' if c.dedup else ''))
     try:
         n = 0
         bad = []
-        for hist in histories(maxlen, c.dedup):
-            if not hist:
+        for hi, hist in enumerate(histories(maxlen, c.dedup)):
+            if not hist or hi % nshards != shard:
                 continue
             I = ctx.interp()
             n += 1
@@ -261,13 +284,17 @@ def run(tier, seed, only=None):
     ctx = common.Ctx()
     maxlen = 4 if tier == 'quick' else 6
 
-    def go():
-        I0 = ctx.interp()
-        for c in colls(I0):
-            if only and c.name not in only:
-                continue
-            run_coll(ctx, report, c, maxlen if not c.dedup else (4 if tier == 'quick' else 5))
-    engine.run_in_big_stack(go)
+    names = [c.name for c in colls(ctx.interp())]
+    ctx.interps.clear()
+    nshards = 1 if tier == 'quick' else 8
+    items = []
+    for n in names:
+        if only and n not in only:
+            continue
+        ml = maxlen if n != 'ModuleTypes' else (4 if tier == 'quick' else 5)
+        for sh in range(nshards):
+            items.append((n, ml, sh, nshards))
+    pc.run_parallel(ctx, report, run_coll, items, nproc=16)
     report.bounds = {'histories': 'all operation sequences of length <= %d (types: incl. choice of adding a signature equal to any earlier one), exhaustively' % maxlen, 'payloads': 'symbolic (memory/table initial size, global mutability) or distinct tokens'}
     report.assumptions = ['id_arena::Arena: ids are consecutive indices of one arena, alloc appends, get/index by position (contract); HashSet/HashMap: association-list semantics with the key type\'s own PartialEq', 'foreign ids of other arenas are represented by a never-issued index of the same arena']
     report.samples = [o.as_json() for o in report.obligations[:3]]
